@@ -2,7 +2,9 @@ package proxy
 
 import (
 	"context"
+	"errors"
 	"fmt"
+	"io"
 	"net"
 	"reflect"
 	"strings"
@@ -230,6 +232,254 @@ type caseID struct {
 	Forced, Try, Registered []string
 	Host                    hostSpelling
 	History                 []op
+	// Chain != "" selects the failure-chain pass: the proxy's own redirects run for real, every
+	// server refuses (dial error) or kicks during login (Disconnect packet) according to Modes.
+	Chain string            `json:",omitempty"` // initial | kick-packet | kick-reason | conn-error | connect
+	Modes map[string]string `json:",omitempty"` // server -> refuse | kick
+	Target string           `json:",omitempty"` // chain entry "connect": the server the player asks for
+	Login bool              `json:",omitempty"` // login-flow pass: initial choice through the real handshake + login handlers
+}
+
+// ---- failure chains: the real redirect loop ----
+
+// chainCases: entry events x prior state x failure modes of the servers (the caller fills in the configuration).
+func chainCases(reg []string, thorough bool) []caseID {
+	modeSets := []map[string]string{
+		{"s1": "refuse", "s2": "refuse", "s3": "refuse"},
+		{"s1": "kick", "s2": "kick", "s3": "kick"},
+		{"s1": "refuse", "s2": "kick", "s3": "refuse"},
+	}
+	if thorough {
+		modeSets = append(modeSets, map[string]string{"s1": "kick", "s2": "refuse", "s3": "kick"}, map[string]string{"s1": "kick", "s2": "kick", "s3": "refuse"})
+	}
+	var out []caseID
+	for _, ms := range modeSets {
+		out = append(out, caseID{Chain: "initial", Modes: ms})
+		for _, s := range reg {
+			out = append(out, caseID{Chain: "connect", Target: s, Modes: ms})
+			for _, entry := range []string{"kick-packet", "kick-reason", "conn-error"} {
+				out = append(out, caseID{Chain: entry, Modes: ms, History: []op{{"connected", s}}})
+				if entry == "kick-packet" && !thorough {
+					continue
+				}
+				for _, f := range reg {
+					if f != s {
+						out = append(out, caseID{Chain: entry, Modes: ms, History: []op{{"connected", s}, {"inflight", f}}})
+					}
+				}
+			}
+		}
+	}
+	return out
+}
+
+// c17Info is a registered server whose dial is scripted: it refuses, or accepts and kicks during login.
+type c17Info struct {
+	name string
+	addr net.Addr
+	mode string
+	dials *[]string
+}
+
+func (i *c17Info) Name() string   { return i.name }
+func (i *c17Info) Addr() net.Addr { return i.addr }
+func (i *c17Info) Dial(ctx context.Context, _ Player) (net.Conn, error) {
+	*i.dials = append(*i.dials, i.name)
+	if i.mode != "kick" {
+		return nil, errors.New("scripted: connection refused by " + i.name)
+	}
+	a, b := net.Pipe()
+	go func() { _, _ = io.Copy(io.Discard, b) }() // swallow handshake + login start
+	go func() {                                   // login-state Disconnect: id 0x00, JSON chat string
+		js := `{"text":"kick-reason-` + i.name + `"}`
+		payload := append([]byte{0x00, byte(len(js))}, js...)
+		_, _ = b.Write(append([]byte{byte(len(payload))}, payload...))
+	}()
+	return a, nil
+}
+
+func plainText(c component.Component) string {
+	t, ok := c.(*component.Text)
+	if !ok || t == nil {
+		return fmt.Sprintf("%T", c)
+	}
+	out := t.Content
+	for _, e := range t.Extra {
+		out += plainText(e)
+	}
+	return out
+}
+
+type kickObs struct {
+	From, To string // To == "" : disconnect
+}
+
+// runChain builds the world with scripted servers, applies the history, triggers the entry event and lets the
+// proxy's own fallback loop run to the end; every KickedFromServerEvent decision is compared with the reference.
+func runChain(c caseID) (string, string, string) {
+	servers := map[string]string{}
+	fh := map[string][]string{"other.example.com": {"s3"}}
+	if len(c.Forced) > 0 {
+		fh["play.example.com"] = c.Forced
+	}
+	cfg := &config.Config{Servers: servers, ForcedHosts: fh, Try: c.Try, Lite: liteconfig.Config{Enabled: false}, ConnectionTimeout: 600000, ReadTimeout: 600000}
+	ev := &syncEvents{}
+	p := &Proxy{log: logr.Discard(), cfg: cfg, event: ev, servers: make(map[string]*registeredServer), configServers: make(map[string]bool), authenticator: c17Auth}
+	if err := p.init(); err != nil {
+		panic(err)
+	}
+	var dials []string
+	for i, n := range c.Registered {
+		if _, err := p.Register(&c17Info{name: n, addr: netutil.NewAddr(fmt.Sprintf("127.0.0.1:%d", 30000+i), "tcp"), mode: c.Modes[n], dials: &dials}); err != nil {
+			panic(err)
+		}
+	}
+	conn := newC17Conn()
+	vhost := netutil.NewAddr(fmt.Sprintf("%s:%d", c.Host.Address, c.Host.Port), "tcp")
+	deps := &sessionHandlerDeps{proxy: p, eventMgr: ev, configProvider: &c17Cfg{cfg}, authenticator: c17Auth, registrar: p}
+	pl := newConnectedPlayer(conn, &profile.GameProfile{ID: uuid.New(), Name: "tester"}, vhost, packet.LoginHandshakeIntent, false, nil, deps)
+	m := newModel(c.Forced, c.Try, c.Registered, c.Host)
+
+	// state before the entry event (as in runCase)
+	for _, o := range c.History {
+		rs := p.server(o.S)
+		if rs == nil {
+			return "", "", "skip"
+		}
+		switch o.Kind {
+		case "connected":
+			pl.setConnectedServer(newServerConnection(rs, nil, pl))
+			m.current, m.start = o.S, 0
+			if m.inflight == o.S {
+				m.inflight = ""
+			}
+		case "inflight":
+			pl.setInFlightConnection(newServerConnection(rs, nil, pl))
+			m.inflight = o.S
+		default:
+			return "", "", "skip"
+		}
+	}
+
+	var seen []kickObs
+	ev.onKick = func(e *KickedFromServerEvent) {
+		o := kickObs{From: name(e.Server())}
+		if rd, ok := e.Result().(*RedirectPlayerKickResult); ok {
+			o.To = name(rd.Server)
+		} else if _, ok := e.Result().(*DisconnectPlayerKickResult); !ok {
+			o.To = fmt.Sprintf("%T", e.Result())
+		}
+		seen = append(seen, o)
+	}
+
+	// reference: the chain of decisions
+	var want []kickObs
+	follow := func(failed string) { // failed just kicked/refused the player
+		for {
+			n := m.next(failed)
+			want = append(want, kickObs{From: failed, To: n})
+			m.current, m.inflight = "", "" // the kicked connection and any in-flight attempt are gone
+			if n == "" {
+				return
+			}
+			failed = n // scripted: it fails too
+		}
+	}
+	reason := &component.Text{Content: "kick-reason-entry"}
+	lastReason := ""
+	var pan any
+	var panicked bool
+	switch c.Chain {
+	case "initial":
+		if len(c.History) != 0 {
+			return "", "", "skip"
+		}
+		first := m.next("")
+		if first != "" {
+			follow(first)
+		}
+		panicked, pan = vrt.Catch(func() { (&authSessionHandler{sessionHandlerDeps: deps}).connectToInitialServer(pl) })
+		if first == "" {
+			if len(seen) != 0 || len(dials) != 0 {
+				return "chain/initial-none-available", fmt.Sprintf("no server is eligible but kick events %v dials %v", seen, dials), "x"
+			}
+			return "", "", "initial:none"
+		}
+	case "connect":
+		if m.current != "" || m.inflight != "" || len(c.History) != 0 {
+			return "", "", "skip"
+		}
+		rs := p.server(c.Target)
+		if rs == nil {
+			return "", "", "skip"
+		}
+		follow(c.Target)
+		panicked, pan = vrt.Catch(func() { pl.CreateConnectionRequest(rs).ConnectWithIndication(context.Background()) })
+	case "kick-packet", "kick-reason", "conn-error":
+		if m.current == "" {
+			return "", "", "skip"
+		}
+		cur := p.server(m.current)
+		follow(m.current)
+		panicked, pan = vrt.Catch(func() {
+			switch c.Chain {
+			case "kick-packet":
+				pl.handleDisconnect(cur, packet.NewDisconnect(reason, conn.Protocol(), state.Play.State), true)
+			case "kick-reason":
+				pl.handleDisconnectWithReason(cur, reason, true)
+			case "conn-error":
+				pl.handleConnectionErr(cur, errors.New("scripted: read error"), true)
+			}
+		})
+		if c.Chain != "conn-error" {
+			lastReason = "kick-reason-entry"
+		}
+	default:
+		return "", "", "skip"
+	}
+	obs := fmt.Sprint(seen)
+	if panicked {
+		return "chain/panic", fmt.Sprintf("%v", pan), obs
+	}
+	if fmt.Sprint(seen) != fmt.Sprint(want) {
+		return "chain/fallback-sequence", fmt.Sprintf("entry %s, modes %v: kick decisions (from->to) %v, want %v (list %v, registered %v)", c.Chain, c.Modes, seen, want, m.list, c.Registered), obs
+	}
+	// the servers actually dialled are exactly the redirect targets, in order
+	var wantDials []string
+	if c.Chain == "initial" || c.Chain == "connect" {
+		wantDials = append(wantDials, want[0].From)
+	}
+	for _, w := range want {
+		if w.To != "" {
+			wantDials = append(wantDials, w.To)
+		}
+	}
+	if fmt.Sprint(dials) != fmt.Sprint(wantDials) {
+		return "chain/dialled-servers", fmt.Sprintf("entry %s: dialled %v, want %v", c.Chain, dials, wantDials), obs
+	}
+	// none remains: the player is disconnected, with the kick reason when the last failure was a kick
+	last := want[len(want)-1].From
+	if len(want) > 1 || c.Chain == "initial" || c.Chain == "connect" {
+		lastReason = ""
+		if c.Modes[last] == "kick" {
+			lastReason = "kick-reason-" + last
+		}
+	}
+	var disc *packet.Disconnect
+	for _, w := range conn.written {
+		if d, ok := w.(*packet.Disconnect); ok {
+			disc = d
+		}
+	}
+	if disc == nil || conn.ctx.Err() == nil {
+		return "chain/not-disconnected", fmt.Sprintf("entry %s: no server remains after %v but the player was not disconnected (wrote %d packets)", c.Chain, seen, len(conn.written)), obs
+	}
+	if lastReason != "" {
+		if txt := plainText(disc.Reason.AsComponentOrNil()); !strings.Contains(txt, lastReason) {
+			return "chain/disconnect-reason", fmt.Sprintf("entry %s: disconnected with %q, which does not carry the kick reason %q", c.Chain, txt, lastReason), obs
+		}
+	}
+	return "", "", obs
 }
 
 // runCase replays a history on a fresh world and model; returns a violation (key, desc) or "".
@@ -314,6 +564,58 @@ func runCase(c caseID) (string, string, string) {
 	return "", "", obs
 }
 
+// runLogin: the initial choice observed where a plugin sees it (PlayerChooseInitialServerEvent), reached through the
+// real handshake -> login -> auth handlers of a real Proxy: the virtual host is whatever the handshake handler makes of
+// the client's ServerAddress and Port.
+func runLogin(c caseID) (string, string, string) {
+	cfg := kitConfig()
+	cfg.OnlineMode = false
+	for i, n := range c.Registered {
+		cfg.Servers[n] = fmt.Sprintf("127.0.0.1:%d", 30000+i)
+	}
+	cfg.ForcedHosts["other.example.com"] = []string{"s3"}
+	if len(c.Forced) > 0 {
+		cfg.ForcedHosts["play.example.com"] = c.Forced
+	}
+	cfg.Try = c.Try
+	s := newKitSession(cfg, version.Minecraft_1_12_2.Protocol)
+	if err := s.Proxy.init(); err != nil {
+		panic(err)
+	}
+	m := newModel(c.Forced, c.Try, c.Registered, c.Host)
+	want := m.next("")
+	got, fired := "", 0
+	kitOn(s.Events, func(e *PlayerChooseInitialServerEvent) {
+		fired++
+		got = name(e.InitialServer())
+		e.SetInitialServer(nil) // nothing is dialled: the player is told that no server is available
+	})
+	s.Conn.deliver(&packet.Handshake{ProtocolVersion: int(version.Minecraft_1_12_2.Protocol), ServerAddress: c.Host.Address, Port: c.Host.Port, NextStatus: 2})
+	if _, ok := s.Conn.active.(*initialLoginSessionHandler); !ok {
+		return "login-flow/handshake-did-not-reach-login", s.Conn.trace(), "x"
+	}
+	if _, pan := s.Conn.deliver(&packet.ServerLogin{Username: "tester"}); pan != nil {
+		return "login-flow/panic", fmt.Sprint(pan), "x"
+	}
+	if fired != 1 {
+		return "login-flow/initial-server-event-count", fmt.Sprintf("PlayerChooseInitialServerEvent fired %d times; conn: %s", fired, s.Conn.trace()), "x"
+	}
+	if got != want {
+		return "login-flow/initial-server", fmt.Sprintf("client address %q port %d: initial server %q, want %q (list %v, registered %v)", c.Host.Address, c.Host.Port, got, want, m.list, c.Registered), "init=" + got
+	}
+	return "", "", "login:init=" + got
+}
+
+func runAny(c caseID) (string, string, string) {
+	switch {
+	case c.Login:
+		return runLogin(c)
+	case c.Chain != "":
+		return runChain(c)
+	}
+	return runCase(c)
+}
+
 func TestVerif(t *testing.T) {
 	var err error
 	c17Auth, err = auth.New(auth.Options{})
@@ -323,7 +625,7 @@ func TestVerif(t *testing.T) {
 	vrt.Run(t, "C17", func(r *vrt.R) {
 		var rc caseID
 		if r.ReplayInto(&rc) {
-			if k, d, _ := runCase(rc); k != "" {
+			if k, d, _ := runAny(rc); k != "" {
 				r.Violation(k, d, rc)
 			}
 			r.Eval(1)
@@ -374,6 +676,41 @@ func TestVerif(t *testing.T) {
 					return
 				}
 				for _, reg := range regs {
+					// ---- the real fallback loop (failure chains) and the real login flow ----
+					for _, hs := range hosts {
+						if hs.Port == 25565 || r.Thorough() {
+							c := caseID{Forced: forced, Try: try, Registered: reg, Host: hs, Login: true}
+							k, d, _ := runLogin(c)
+							r.Eval(1)
+							r.Class("login-flow:host:" + hs.Class)
+							if k != "" {
+								r.Violation(k, d, c)
+							}
+						}
+						if hs.Port != 25565 || (hs.Class != "exact" && hs.Class != "unknown-host" && !(r.Thorough() && hs.Class == "tcpshield+fml")) {
+							continue
+						}
+						for _, ch := range chainCases(reg, r.Thorough()) {
+							c := ch
+							c.Forced, c.Try, c.Registered, c.Host = forced, try, reg, hs
+							k, d, obs := runChain(c)
+							r.Eval(1)
+							if obs == "skip" {
+								continue
+							}
+							r.Class("chain:" + c.Chain)
+							if strings.Count(obs, "{") >= 2 {
+								r.Class("chain:two-or-more-failures-in-a-row")
+								r.Nontrivial(1)
+							}
+							if strings.Count(obs, "{") >= 3 {
+								r.Class("chain:three-failures-in-a-row")
+							}
+							if k != "" {
+								r.Violation(k, d, c)
+							}
+						}
+					}
 					for _, hs := range hosts {
 						// full histories only for the canonical spelling classes; other spellings check the initial choice + depth-1
 						hl := histories
